@@ -118,7 +118,7 @@ def hostile_name_form(rng, i):
         f.choices["l1"][1]["name"] = bad
         f.survey.append(Row("group", "begin loop over l1", "lp", {"label": "loop"}, [Row("q", "text", "inloop", {"label": "%(label)s"})], meta={"end_type": "end loop"}))
     else:
-        c = rng.choice(hostile.CTL)
+        c = rng.choice(hostile.CTL + hostile.SURROGATES)  # this class is converted from a dict, which can carry either
         bad = repr(c)
         if ch == "ctl-char-label":
             f.survey[0].cells["label"] = f"L{c}1"
